@@ -19,9 +19,9 @@ ERRNOS = {
 }
 
 # kinds of storage calls
-OPEN_R, OPEN_W, READ, WRITE, SEEK, CLOSE, LISTDIR, STAT = (
-    "open-r", "open-w", "read", "write", "seek", "close", "listdir", "stat")
-WRITE_SIDE = (OPEN_W, WRITE)
+OPEN_R, OPEN_W, READ, WRITE, SEEK, CLOSE, LISTDIR, STAT, REMOVE, RENAME = (
+    "open-r", "open-w", "read", "write", "seek", "close", "listdir", "stat", "remove", "rename")
+WRITE_SIDE = (OPEN_W, WRITE, REMOVE, RENAME)
 
 
 class SimKill(BaseException):
@@ -180,6 +180,24 @@ class SimDisk:
             self.files[p] = bytearray()
             self.open_handles[p] = self.open_handles.get(p, 0) + 1
         return SimRaw(self, p, mode, name if name is not None else path)
+
+    def remove(self, path):
+        p = norm(path)
+        self.call(REMOVE, p)
+        if p in self.dirs:
+            raise IsADirectoryError(_errno.EISDIR, "Is a directory", path)
+        if p not in self.files:
+            raise FileNotFoundError(_errno.ENOENT, "No such file or directory", path)
+        del self.files[p]
+
+    def rename(self, src, dst):
+        a, b = norm(src), norm(dst)
+        self.call(RENAME, a)
+        if a not in self.files:
+            raise FileNotFoundError(_errno.ENOENT, "No such file or directory", src)
+        if posixpath.dirname(b) not in self.dirs or b in self.dirs:
+            raise FileNotFoundError(_errno.ENOENT, "No such file or directory", dst)
+        self.files[b] = self.files.pop(a)
 
     def log_digest(self):
         h = hashlib.sha256()
